@@ -428,7 +428,7 @@ def deadline_of(t0_ms, secs):
     return t + (t % 100)
 
 
-def deadline_probe_cases(phases, ackdls=(0, 10, 11, 15), mods=(None,), prefix="dl", gaps=(40,)):
+def deadline_probe_cases(phases, ackdls=(0, 10, 11, 15), mods=(None,), prefix="dl", gaps=(40,), pub_probe=False):
     """For each hand-out phase: deliver, then probe 1 ms before, at, and 1 ms after the deadline.
     With mods: after delivery at t0, at t0+3s a MOD n is issued and the probes bracket the new deadline
     (and the old one, to see that it is gone)."""
@@ -474,7 +474,15 @@ def deadline_probe_cases(phases, ackdls=(0, 10, 11, 15), mods=(None,), prefix="d
                     now += 1
                     ops += ["STATS " + Sn, "PULL %s 5 1" % Sn]
                 ops += ["ACK %s 2 ^0 ^1" % Sn, "STATS " + Sn]
-                cases.append(("%s-p%d-g%d-a%d-m%s" % (prefix, p, gap, dl, mod), ops))
+                if pub_probe:
+                    # a Publish (and a GetSubscription) reach the subscription just before each probe
+                    out = []
+                    for o in ops:
+                        if o.startswith("STATS ") and out and out[-1].startswith("ADV "):
+                            out += ["PUB %s 1 70 0" % T, "GS " + Sn]
+                        out.append(o)
+                    ops = out
+                cases.append(("%s-p%d-g%d-a%d-m%s%s" % (prefix, p, gap, dl, mod, "-pub" if pub_probe else ""), ops))
     return cases
 
 
@@ -566,6 +574,21 @@ def _unissued_tokens():
     return [token_of(x) for x in (1, 2, 3, 1000, 2 ** 31, 2 ** 63, 2 ** 64 - 1001, 2 ** 64 - 1)]
 
 
+def boundary_count_cases(prefix="bc"):
+    """A blocking Pull / a StreamingPull whose message count is a boundary value (0, negative, multiples of 65536,
+    i32 limits) on a subscription that HAS messages: it must be answered at once (with a batch or a status)."""
+    T, Sn = hx(tname("p", "t")), hx(sname("p", "s"))
+    cases = []
+    for n in (0, 1, -1, 65535, 65536, -65536, 131072, 2147483647, -2147483648):
+        for backlog in (3, 1):
+            ops = ["SEED 7", "CT " + T, "CS %s %s 10 ~" % (Sn, T), "PUBN %s %d 78" % (T, backlog), "STATS " + Sn,
+                   "BG 700 PULL %s %d 0" % (Sn, n), "Q", "JOIN 700", "STATS " + Sn, "Q", "JOIN 700", "STATS " + Sn,
+                   "SO 9 %s %d 0 10" % (Sn, n), "SR 9", "STATS " + Sn,
+                   "GT " + T, "GS " + Sn, "PUB %s 1 7a 0" % T, "PULL %s 10 1" % Sn, "STATS " + Sn, "SR 9", "JOIN 700"]
+            cases.append(("%s-n%d-b%d" % (prefix, n, backlog), ops))
+    return cases
+
+
 def malformed_cases(seed, n, prefix="bad"):
     global UNISSUED_TOKENS
     UNISSUED_TOKENS = _unissued_tokens()
@@ -616,7 +639,8 @@ def malformed_cases(seed, n, prefix="bad"):
                 rng.shuffle(ids)
                 ops.append("MOD %s %d %d %s" % (hx(rng.choice([Sn, Sn, bad])), rng.choice(ints + [5, 600]), len(ids), " ".join(ids)))
             elif k == 12:
-                ops += ["SO 9 %s %d %d 10" % (hx(rng.choice([Sn, bad])), rng.choice(ints), rng.choice([0, -1, 5])), "SR 9"]
+                sid = 400 + len(ops)        # never the id of a stream opened before in this case
+                ops += ["SO %d %s %d %d 10" % (sid, hx(rng.choice([Sn, bad])), rng.choice(ints), rng.choice([0, -1, 5])), "SR %d" % sid]
             else:
                 # a stream with one bad control message at a random position of the batch
                 acks = ["@0"] + ([hx(rng.choice(BAD_ACK_IDS))] if rng.random() < 0.5 else [])
@@ -715,6 +739,35 @@ def wait_enum_cases(prefix="wq"):
     return cases
 
 
+def mixed_modify_wake_cases(prefix="mx"):
+    """Consumers wait on an empty backlog while a stream holds three deliveries; ONE control message on that stream
+    nacks some of them and extends others (every split); the nacked ones must reach a waiting consumer at once."""
+    import itertools
+    T, Sn = hx(tname("p", "t")), hx(sname("p", "s"))
+    cases = []
+    for waiters in (("P",), ("S",), ("P", "S"), ("P", "P")):
+        for ids in (("^0", "^1"), ("^1", "^0"), ("^0", "^1", "^2"), ("^2", "^0")):
+            for secs in itertools.product([0, 30], repeat=len(ids)):
+                if 0 not in secs:
+                    continue
+                ops = ["SEED 5", "CT " + T, "CS %s %s 10 ~" % (Sn, T), "PUB %s 3 61 0 62 0 63 0" % T,
+                       "SO 1 %s 10 0 10" % Sn, "SR 1"]
+                obs = []
+                for i, w in enumerate(waiters):
+                    if w == "P":
+                        ops += ["BG %d PULL %s 5 0" % (100 + i, Sn), "Q", "JOIN %d" % (100 + i)]
+                        obs.append("JOIN %d" % (100 + i))
+                    else:
+                        ops += ["SO %d %s 10 0 10" % (2 + i, Sn), "SR %d" % (2 + i)]
+                        obs.append("SR %d" % (2 + i))
+                ops += ["STATS " + Sn,
+                        "SS 1 - 0 0 0 %d %s %d %s" % (len(ids), " ".join(ids), len(secs), " ".join(map(str, secs))),
+                        "STATS " + Sn] + obs + ["SR 1", "STATS " + Sn, "ADV %d" % (10200 * MS), "STATS " + Sn] + obs + \
+                       ["SR 1", "STATS " + Sn]
+                cases.append(("%s-%s-%s-%s" % (prefix, "".join(waiters), "".join(i[1] for i in ids), "_".join(map(str, secs))), ops))
+    return cases
+
+
 def delete_release_cases(seeds, prefix="del"):
     """DeleteSubscription with open streams (request side open or closed), blocked Pulls and calls racing it."""
     T, Sn, S2 = hx(tname("p", "t")), hx(sname("p", "s")), hx(sname("p", "other"))
@@ -753,7 +806,8 @@ def abandon_cases(ks=(1, 2, 3, 4, 6), ys=(0, 1, 4), fills=(0, 16, 24), prefix="a
     T, Sn, S2, S3 = tname("p", "t"), sname("p", "s"), sname("p", "new"), sname("p", "twin")
     out = []
     n = 0
-    for kind in ("CS", "DS", "DSW", "DST", "PUB", "PUBS", "PULL", "ACK", "DT"):
+    EP = hx("http://127.0.0.1:9/push")
+    for kind in ("CS", "CSP", "DS", "DSW", "DST", "PUB", "PUBS", "PULL", "ACK", "DT"):
         for k in ks:
             for y in ys:
                 for fill in fills:
@@ -762,6 +816,10 @@ def abandon_cases(ks=(1, 2, 3, 4, 6), ys=(0, 1, 4), fills=(0, 16, 24), prefix="a
                     if kind == "CS":
                         xc = "XC CS %d %d %d %s %s 10" % (k, y, fill, hx(S2), hx(T))
                         eq = "CS %s %s 10 ~" % (hx(S2), hx(T))
+                    elif kind == "CSP":
+                        # the same for a PUSH subscription: stored, attached and registered for push - all or nothing
+                        xc = "XC CS %d %d %d %s %s 10 %s" % (k, y, fill, hx(S2), hx(T), EP)
+                        eq = "CS %s %s 10 %s" % (hx(S2), hx(T), EP)
                     elif kind == "DS":
                         xc = "XC DS %d %d %d %s" % (k, y, fill, hx(Sn))
                         eq = "DS " + hx(Sn)
@@ -795,7 +853,7 @@ def abandon_cases(ks=(1, 2, 3, 4, 6), ys=(0, 1, 4), fills=(0, 16, 24), prefix="a
                     ops.append(xc)
                     if kind in ("DSW", "DST"):
                         ops += ["Q", "SR 7"] + (["JOIN 800"] if kind == "DSW" else [])
-                    ops += ["Q", "GS " + hx(S2), "GS " + hx(Sn), "GT " + hx(T), "LTS %s 0 -" % hx(T), "LS %s 0 -" % hx("projects/p"),
+                    ops += ["Q", "GS " + hx(S2), "REG", "GS " + hx(Sn), "GT " + hx(T), "LTS %s 0 -" % hx(T), "LS %s 0 -" % hx("projects/p"),
                             "STATS " + hx(Sn), "STATS " + hx(S3), "STATS " + hx(S2), "PUB %s 1 70 0" % hx(T), "STATS " + hx(Sn), "STATS " + hx(S2),
                             "PULL %s 10 1" % hx(S2), "ADV %d" % (10200 * MS), "STATS " + hx(Sn), "PULL %s 10 1" % hx(Sn),
                             "CT " + hx(T), "CS %s %s 10 ~" % (hx(S2), hx(T)), "DS " + hx(S2), "DS " + hx(Sn), "DT " + hx(T),
@@ -1029,6 +1087,40 @@ def id_list_cases(prefix="il"):
                        "PULL %s 10 1" % Sn, "ADV %d" % (25000 * MS), "SR 1", "STATS " + Sn, "PULL %s 10 1" % Sn, "SR 1"]
                 cases.append(("%s-sackmod-%s-%s-%s" % (prefix, "".join(a[1] for a in acks), "".join(m[1] for m in mods),
                                                       "_".join(map(str, secs))), ops))
+    return cases
+
+
+def subset_list_cases(prefix="sub", n=4):
+    """n messages leased in one batch (or two batches 40 ms apart), all live; then ONE Acknowledge / nack / extension /
+    streaming ack naming every ordered subset of 1..3 of them; then STATS, the first deadline, the extended one, and a
+    drain: what the request named is gone (or back at once, or back later), what it did not name comes back at its
+    own deadline."""
+    import itertools
+    T, Sn = hx(tname("p", "t")), hx(sname("p", "s"))
+    pub = "PUB %s %d %s" % (T, n, " ".join("%02x 0" % (0x61 + i) for i in range(n)))
+    cases = []
+    for r in (1, 2, 3):
+        for combo in itertools.permutations(range(n), r):
+            ids = " ".join("^%d" % c for c in combo)
+            for kind in ("ack", "nack", "mod", "sack"):
+                for split in (False, True):
+                    if split and (r == 1 or kind == "sack"):
+                        continue
+                    ops = ["SEED 3", "CT " + T, "CS %s %s 10 ~" % (Sn, T), pub]
+                    if kind == "sack":
+                        ops += ["SO 1 %s 10 0 10" % Sn, "SR 1", "SS 1 - 0 0 %d %s 0 0" % (r, ids), "SR 1"]
+                    else:
+                        if split:
+                            ops += ["PULL %s 2 1" % Sn, "ADV %d" % (40 * MS), "PULL %s 10 1" % Sn]
+                        else:
+                            ops += ["PULL %s 10 1" % Sn]
+                        ops.append({"ack": "ACK %s %d %s", "nack": "MOD %s 0 %d %s", "mod": "MOD %s 30 %d %s"}[kind]
+                                   % ((Sn, r, ids)))
+                    ops += ["STATS " + Sn, "PULL %s 10 1" % Sn, "ADV %d" % (10200 * MS), "STATS " + Sn, "PULL %s 10 1" % Sn,
+                            "ADV %d" % (20000 * MS), "STATS " + Sn, "PULL %s 10 1" % Sn]
+                    if kind == "sack":
+                        ops.append("SR 1")
+                    cases.append(("%s-%s-%s%s" % (prefix, kind, "".join(map(str, combo)), "-split" if split else ""), ops))
     return cases
 
 
@@ -1351,6 +1443,16 @@ def create_delete_race_cases(ks=range(0, 14), prefix="cdr"):
                     "GS " + Racy, "GS " + Kept, "LTS %s 0 -" % T, "PUB %s 1 61 0" % T, "PULL %s 6000 1" % Kept,
                     "PULL %s 6000 1" % Racy, "DS " + Racy, "GS " + Racy, "LTS %s 0 -" % T]
         cases.append(("%s-k%d-recreate" % (prefix, k), ops))
+    # a second DeleteSubscription while the first one waits for the topic (XD2: the topic's mailbox pre-filled, delete #1
+    # polled k times with y scheduler rounds after each poll, then delete #2 polled once): whenever #2 has answered OK the
+    # subscription is gone from the manager
+    for k2 in (1, 2, 3):
+        for y in (0, 1, 2, 3, 5):
+            for fill in (0, 16, 17, 40):
+                ops = ["SEED %d" % (k2 + y), "CT " + T, "CS %s %s 10 ~" % (Kept, T), "CS %s %s 10 ~" % (Racy, T),
+                       "PUB %s 1 61 0" % T, "XD2 %d %d %d %s %s" % (k2, y, fill, Racy, T), "Q",
+                       "GS " + Racy, "GS " + Kept, "LTS %s 0 -" % T, "PUB %s 1 62 0" % T, "PULL %s 10 1" % Kept]
+                cases.append(("%s-second-delete-k%d-y%d-f%d" % (prefix, k2, y, fill), ops))
     return cases
 
 
